@@ -121,6 +121,8 @@ def plan(tier):
     specs = []
     na, nu = (4, 4) if q else (5, 5)
     for ck in (["crc32"] if q else ["crc32", "crc32c"]):
+        if ck == "crc32c":
+            na = 4  # the second CRC type shares the abstraction; one level less
         specs.append(Spec(f"dest/ack/{ck}/N={na}", "vf.harness.c01:h_dest", {"N": na, "mode": "ack", "ck": ck},
                           twin_share=0.02, obligations=["success_indication", "success_finished_pdu"]))
         specs.append(Spec(f"dest/unack/{ck}/N={nu}", "vf.harness.c01:h_dest", {"N": nu, "mode": "unack", "ck": ck},
